@@ -26,6 +26,8 @@ val compOpp : comparison -> comparison
 
 val add : nat -> nat -> nat
 
+val mul : nat -> nat -> nat
+
 val sub : nat -> nat -> nat
 
 type positive =
@@ -186,6 +188,8 @@ val map : ('a1 -> 'a2) -> 'a1 list -> 'a2 list
 
 val flat_map : ('a1 -> 'a2 list) -> 'a1 list -> 'a2 list
 
+val fold_left : ('a1 -> 'a2 -> 'a1) -> 'a2 list -> 'a1 -> 'a1
+
 val fold_right : ('a2 -> 'a1 -> 'a1) -> 'a1 -> 'a2 list -> 'a1
 
 val forallb : ('a1 -> bool) -> 'a1 list -> bool
@@ -203,6 +207,8 @@ val repeat : 'a1 -> nat -> 'a1 list
 type q = { qnum : z; qden : positive }
 
 val qeq_dec : q -> q -> bool
+
+val qle_bool : q -> q -> bool
 
 val qplus : q -> q -> q
 
@@ -448,88 +454,29 @@ val test_nl_f : nat -> (nat -> car) -> (nat -> car) -> nat -> car
 
 val run_c19 : z -> q list -> q list
 
-val scan : ('a1 -> 'a2 -> 'a1 * 'a3) -> 'a1 -> 'a2 list -> 'a1 * 'a3 list
+type 'k dual = { val0 : 'k; eps : 'k }
 
-val rollout : ('a1 -> 'a1) -> nat -> bool -> 'a1 -> 'a1 list
+val dzero : ops -> car dual
 
-val repeat_fn : ('a1 -> 'a1) -> nat -> 'a1 -> 'a1
+val dunit : ops -> car dual
 
-type 'x auxarg =
-| AuxConst of 'x
-| AuxSeq of 'x list
+val dadd : ops -> car dual -> car dual -> car dual
 
-val aux_seq : nat -> bool -> 'a1 auxarg -> 'a1 list option
+val dsub : ops -> car dual -> car dual -> car dual
 
-val rollout_aux :
-  ('a1 -> 'a2 -> 'a1) -> nat -> bool -> bool -> 'a1 -> 'a2 auxarg -> 'a1 list
-  option
+val dopp : ops -> car dual -> car dual
 
-val repeat_aux :
-  ('a1 -> 'a2 -> 'a1) -> nat -> bool -> 'a1 -> 'a2 auxarg -> 'a1 option
+val dmul : ops -> car dual -> car dual -> car dual
 
-val dynamic_slice : 'a1 list -> nat -> nat -> 'a1 list
+val dinv : ops -> car dual -> car dual
 
-val stack_sub : 'a1 list -> nat -> 'a1 list list option
+val ddiv : ops -> car dual -> car dual -> car dual
 
-val all_same : nat list -> bool
+val deqb : ops -> car dual -> car dual -> bool
 
-val stack_sub_tree : 'a1 list list -> nat -> 'a1 list list list option
+val dualOps : ops -> ops
 
-val rep : z list -> z -> z list
-
-val shape_eqb : z list -> z list -> bool
-
-val all_eqb : z list -> bool
-
-val gen_spatial_shape : z -> z -> z list
-
-val base_call_raises : z -> z -> z -> z list -> bool
-
-val repeated_call_raises : z -> z -> z -> z list -> bool
-
-val poisson_call_raises : z -> z -> z list -> bool
-
-val laplace_order_raises : z -> bool
-
-val gip_raises : z -> z -> z list -> bool
-
-val make_incompressible_raises : z list -> bool
-
-val ifft_raises : z -> bool -> bool -> z list -> bool
-
-val ic_options_raise : bool -> bool -> bool -> bool
-
-val spatial_norm_raises : bool -> z -> bool
-
-val fourier_norm_raises : bool -> z -> bool
-
-val general_nonlin_raises : z -> bool
-
-val general_nonlin_stepper_raises : z -> bool
-
-val vorticity_conv_raises : z -> bool
-
-val projected_conv_raises : z -> bool
-
-val ns_vorticity_raises : z -> bool
-
-val kolmogorov_vorticity_raises : z -> bool
-
-val ns_velocity_raises : z -> bool
-
-val kolmogorov_velocity_raises : z -> bool
-
-val general_vorticity_raises : z -> bool
-
-val gray_scott_raises : z list -> bool
-
-val convection_cons_raises : z -> z list -> bool
-
-val convection_noncons_raises : z -> z list -> bool
-
-val random_sine_raises : z -> bool -> bool -> bool -> bool
-
-val stack_sub_raises : z -> z list -> bool
+val dconst : ops -> car -> car dual
 
 val map2 : ('a1 -> 'a2 -> 'a3) -> 'a1 list -> 'a2 list -> 'a3 list
 
@@ -577,52 +524,6 @@ val sym_cahn_hilliard : ops -> car -> car -> car -> car list -> car
 val sym_gray_scott : ops -> car -> car -> nat -> car list -> car
 
 val sym_swift_hohenberg : ops -> car -> car -> car list -> car
-
-val set0 : ops -> car list -> car list -> car list
-
-val normalize_coefficients : ops -> car -> car -> car list -> car list
-
-val denormalize_coefficients : ops -> car -> car -> car list -> car list
-
-val normalize_convection_scale : ops -> car -> car -> car -> car
-
-val denormalize_convection_scale : ops -> car -> car -> car -> car
-
-val normalize_gradient_norm_scale : ops -> car -> car -> car -> car
-
-val denormalize_gradient_norm_scale : ops -> car -> car -> car -> car
-
-val normalize_polynomial_scales : ops -> car -> car -> car list -> car list
-
-val denormalize_polynomial_scales : ops -> car -> car -> car list -> car list
-
-val reduce_normalized_coefficients_to_difficulty :
-  ops -> car -> car -> car list -> car list
-
-val extract_normalized_coefficients_from_difficulty :
-  ops -> car -> car -> car list -> car list
-
-val reduce_normalized_convection_scale_to_difficulty :
-  ops -> car -> car -> car -> car -> car
-
-val extract_normalized_convection_scale_from_difficulty :
-  ops -> car -> car -> car -> car -> car
-
-val reduce_normalized_gradient_norm_scale_to_difficulty :
-  ops -> car -> car -> car -> car -> car
-
-val extract_normalized_gradient_norm_scale_from_difficulty :
-  ops -> car -> car -> car -> car -> car
-
-val reduce_normalized_nonlinear_scales_to_difficulty :
-  ops -> car -> car -> car -> car list -> car list
-
-val extract_normalized_nonlinear_scales_from_difficulty :
-  ops -> car -> car -> car -> car list -> car list
-
-val wave_mode :
-  ops -> car -> car -> car -> car -> car -> car -> car -> bool -> car -> car
-  -> car * car
 
 val fftfreq : z -> z -> z
 
@@ -781,6 +682,293 @@ val cahn_hilliard :
 val gray_scott :
   ops -> (field -> field) -> (field -> field -> field -> field) -> car -> car
   -> car -> field -> field -> field list
+
+val dCQ : ops
+
+val dcr : q -> q -> car
+
+val dk : car -> car
+
+val put_dual : car list -> q list
+
+val take_dual : car list -> car list -> car list
+
+val lookupD : (z list * car) list -> z list -> car
+
+val run_dsym : q list -> q list
+
+val run_dterm : q list -> q list
+
+val run_c07 : z -> q list -> q list
+
+val scan : ('a1 -> 'a2 -> 'a1 * 'a3) -> 'a1 -> 'a2 list -> 'a1 * 'a3 list
+
+val rollout : ('a1 -> 'a1) -> nat -> bool -> 'a1 -> 'a1 list
+
+val repeat_fn : ('a1 -> 'a1) -> nat -> 'a1 -> 'a1
+
+type 'x auxarg =
+| AuxConst of 'x
+| AuxSeq of 'x list
+
+val aux_seq : nat -> bool -> 'a1 auxarg -> 'a1 list option
+
+val rollout_aux :
+  ('a1 -> 'a2 -> 'a1) -> nat -> bool -> bool -> 'a1 -> 'a2 auxarg -> 'a1 list
+  option
+
+val repeat_aux :
+  ('a1 -> 'a2 -> 'a1) -> nat -> bool -> 'a1 -> 'a2 auxarg -> 'a1 option
+
+val dynamic_slice : 'a1 list -> nat -> nat -> 'a1 list
+
+val stack_sub : 'a1 list -> nat -> 'a1 list list option
+
+val all_same : nat list -> bool
+
+val stack_sub_tree : 'a1 list list -> nat -> 'a1 list list list option
+
+val vmap : ('a1 -> 'a2) -> 'a1 list -> 'a2 list
+
+val vmap2 : ('a3 -> 'a1 -> 'a2) -> 'a3 list -> 'a1 list -> 'a2 list
+
+val upd : nat -> 'a1 -> 'a1 list -> 'a1 list
+
+val zip_cons : 'a1 list -> 'a1 list list -> 'a1 list list
+
+val transpose : nat -> 'a1 list list -> 'a1 list list
+
+val aff6 : z -> z -> z -> z
+
+val flatz : z list list -> q list
+
+val run_c06 : z -> q list -> q list
+
+val flen : ops -> car list -> car
+
+val mean : ops -> car list -> car
+
+val center : ops -> car list -> car list
+
+val sq : ops -> car -> car
+
+val variance : ops -> car list -> car
+
+val normalize_with :
+  ops -> (car list -> car) -> (car list -> car) -> (car list -> car) -> bool
+  -> bool -> bool -> car list -> car list
+
+val fabs : ops -> (car -> car -> bool) -> car -> car
+
+val fmax2 : ops -> (car -> car -> bool) -> car -> car -> car
+
+val fmin2 : ops -> (car -> car -> bool) -> car -> car -> car
+
+val lmax : ops -> (car -> car -> bool) -> car list -> car
+
+val lmin : ops -> (car -> car -> bool) -> car list -> car
+
+val maxabs : ops -> (car -> car -> bool) -> car list -> car
+
+val std : ops -> (car -> car) -> car list -> car
+
+val normalize_ic :
+  ops -> (car -> car -> bool) -> (car -> car) -> bool -> bool -> bool -> car
+  list -> car list
+
+val clamp : ops -> (car -> car -> bool) -> car -> car -> car list -> car list
+
+val scaled : ops -> car -> car list -> car list
+
+val gridD : nat -> nat -> nat list list
+
+val sumD : ops -> nat -> nat -> (nat list -> car) -> car
+
+val npts : ops -> nat -> nat -> car
+
+val chi : ops -> car -> nat list -> nat list -> car
+
+val idftD : ops -> nat -> nat -> car -> (nat list -> car) -> nat list -> car
+
+val meanD : ops -> nat -> nat -> (nat list -> car) -> car
+
+val tfs_dc : ops -> car -> nat -> nat -> car
+
+val is_zero_idx : z list -> bool
+
+val grf_amp_sq_even : ops -> car -> nat -> nat -> z -> z list -> car
+
+val spatial : z -> z -> z list
+
+val bdim : z -> z -> z option
+
+val bcast : z list -> z list -> z list option
+
+val slice0 : z -> z -> z list -> z list
+
+val disc_mask_from : z list -> z list -> nat -> z list option
+
+type gen =
+| GBase of z * z
+| GScaled of gen
+| GClamp of gen
+| GMulti of gen list
+
+val k_DISC : z
+
+val k_BLOBS : z
+
+val k_SINE : z
+
+val kind_has_fun : z -> bool
+
+val base_ctor_raises : z -> z -> bool
+
+val gen_dims : gen -> z option
+
+val sh_eqb : z list -> z list -> bool
+
+val cat2 : z list option -> z list option -> z list option
+
+val concat0 : z list option list -> z list option
+
+val gen_shape : z -> gen -> z list option
+
+val supports_fun : gen -> bool
+
+val qc_leb : qc -> qc -> bool
+
+val rep : z list -> z -> z list
+
+val shape_eqb : z list -> z list -> bool
+
+val all_eqb : z list -> bool
+
+val gen_spatial_shape : z -> z -> z list
+
+val base_call_raises : z -> z -> z -> z list -> bool
+
+val repeated_call_raises : z -> z -> z -> z list -> bool
+
+val poisson_call_raises : z -> z -> z list -> bool
+
+val laplace_order_raises : z -> bool
+
+val gip_raises : z -> z -> z list -> bool
+
+val make_incompressible_raises : z list -> bool
+
+val ifft_raises : z -> bool -> bool -> z list -> bool
+
+val ic_options_raise : bool -> bool -> bool -> bool
+
+val spatial_norm_raises : bool -> z -> bool
+
+val fourier_norm_raises : bool -> z -> bool
+
+val general_nonlin_raises : z -> bool
+
+val general_nonlin_stepper_raises : z -> bool
+
+val vorticity_conv_raises : z -> bool
+
+val projected_conv_raises : z -> bool
+
+val ns_vorticity_raises : z -> bool
+
+val kolmogorov_vorticity_raises : z -> bool
+
+val ns_velocity_raises : z -> bool
+
+val kolmogorov_velocity_raises : z -> bool
+
+val general_vorticity_raises : z -> bool
+
+val gray_scott_raises : z list -> bool
+
+val convection_cons_raises : z -> z list -> bool
+
+val convection_noncons_raises : z -> z list -> bool
+
+val random_sine_raises : z -> bool -> bool -> bool -> bool
+
+val stack_sub_raises : z -> z list -> bool
+
+val discontinuities_raises : bool -> bool -> bool -> bool
+
+val random_discontinuities_raises : bool -> bool -> bool -> bool
+
+val sine_waves_raises : bool -> bool -> bool -> z -> z -> z -> bool
+
+val sine_waves_call_raises : bool -> bool -> z list -> bool
+
+val gaussian_blob_call_raises : bool -> z -> z list -> bool
+
+val tfs_raises : bool -> bool -> bool -> bool
+
+val grf_raises : bool -> bool -> bool -> bool
+
+val diffused_noise_raises : bool -> bool -> bool -> bool
+
+val gen_tfs_dc : ops -> car -> car -> car
+
+val gen_disc_shape : z list -> nat -> z list option
+
+val parse_gen : nat -> z list -> (gen * z list) option
+
+val parse_gens : nat -> nat -> z list -> (gen list * z list) option
+
+val decode_gen : z list -> gen
+
+val qid : car -> car
+
+val run_c18 : z -> q list -> q list
+
+val set0 : ops -> car list -> car list -> car list
+
+val normalize_coefficients : ops -> car -> car -> car list -> car list
+
+val denormalize_coefficients : ops -> car -> car -> car list -> car list
+
+val normalize_convection_scale : ops -> car -> car -> car -> car
+
+val denormalize_convection_scale : ops -> car -> car -> car -> car
+
+val normalize_gradient_norm_scale : ops -> car -> car -> car -> car
+
+val denormalize_gradient_norm_scale : ops -> car -> car -> car -> car
+
+val normalize_polynomial_scales : ops -> car -> car -> car list -> car list
+
+val denormalize_polynomial_scales : ops -> car -> car -> car list -> car list
+
+val reduce_normalized_coefficients_to_difficulty :
+  ops -> car -> car -> car list -> car list
+
+val extract_normalized_coefficients_from_difficulty :
+  ops -> car -> car -> car list -> car list
+
+val reduce_normalized_convection_scale_to_difficulty :
+  ops -> car -> car -> car -> car -> car
+
+val extract_normalized_convection_scale_from_difficulty :
+  ops -> car -> car -> car -> car -> car
+
+val reduce_normalized_gradient_norm_scale_to_difficulty :
+  ops -> car -> car -> car -> car -> car
+
+val extract_normalized_gradient_norm_scale_from_difficulty :
+  ops -> car -> car -> car -> car -> car
+
+val reduce_normalized_nonlinear_scales_to_difficulty :
+  ops -> car -> car -> car -> car list -> car list
+
+val extract_normalized_nonlinear_scales_from_difficulty :
+  ops -> car -> car -> car -> car list -> car list
+
+val wave_mode :
+  ops -> car -> car -> car -> car -> car -> car -> car -> bool -> car -> car
+  -> car * car
 
 val deriv_mode : ops -> nat -> car list -> car -> car list
 
